@@ -341,7 +341,7 @@ func (s *c30Sys) observe(x *mc.X, m *c30Model, when string) {
 
 func TestVerifC30(t *testing.T) {
 	w := c30World0()
-	depth := mc.Pick(5, 7)
+	depth := mc.Pick(6, 8)
 	senders := []string{"P", "Q", "U"}
 	var menu []string
 	for _, c := range w.cheques {
@@ -372,6 +372,7 @@ func TestVerifC30(t *testing.T) {
 				if err == nil {
 					s.pub.wait(x, 1)
 					if why != "" {
+						x.Logf("records after the call: %s", s.dump(x))
 						x.Fail("accepted-"+why, "step %d: cheque %s arriving from %s was accepted (highest accepted payout of %s so far: %d)", step+1, c.desc, sender, c.issuer, m.max[c.issuer])
 					}
 					m.max[c.issuer] = c.payout
